@@ -2,6 +2,7 @@ package resolver
 
 import (
 	"context"
+	"errors"
 	"os"
 	"time"
 
@@ -179,6 +180,11 @@ func (h *DNSHandler) handle(ctx context.Context, req *dns.Msg) *dns.Msg {
 		switch {
 		case middleware.IsRequestLocalResolutionError(err):
 			middleware.MarkRequestLocalFailureResponse(ctx, resp, err)
+		case errors.Is(err, errResolutionCapacity), errors.Is(err, errZoneCapacity):
+			// Shed load: true of this instant, not of the question. Without
+			// the mark the cache files it as an RFC 9520 failure and keeps
+			// refusing the name after the overload has passed.
+			middleware.MarkRequestLocalFailureResponse(ctx, resp, middleware.ErrResolutionShed)
 		case requestCtxErr != nil:
 			middleware.MarkRequestLocalFailureResponse(ctx, resp, requestCtxErr)
 		}
